@@ -64,6 +64,18 @@ def must_call(prog, fname, targets, depth=3, _stack=None):
     return res
 
 
+def calls_doing(prog, fn, primitives, depth=3):
+    """call sites in fn that perform one of `primitives`: a direct call, or a call of a wrapper all of whose paths
+    call it (so inlining the wrapper at the site, or wrapping the primitive, changes nothing)"""
+    prim = set(primitives)
+    out = []
+    for c in fn.calls():
+        cal = fn.nodes[c].get("callee")
+        if cal in prim or (cal in prog.fns and cal != fn.name and must_call(prog, cal, tuple(prim), depth=depth)):
+            out.append(c)
+    return out
+
+
 def through_call(prog, f, targets, depth=3):
     targets = frozenset(names(targets))
 
@@ -343,6 +355,25 @@ def result_use(fn, call):
     if k == "CallExpr":
         return "arg"
     return "operand"
+
+
+def value_edges(fn, call, truth):
+    """CFG edges (dst points) on which the (boolean) result of `call` is known to be `truth`: the call tested directly
+    in a condition, or a local that was initialised / assigned from it tested later — the same thing written with or
+    without a temporary"""
+    ds = set()
+    u = result_use(fn, call)
+    if isinstance(u, tuple):
+        d = u[1] if u[0] == "init" else var_of(fn, u[1])
+        if d is not None:
+            ds.add(d)
+
+    def pred(e, pol):
+        if not isinstance(e, int) or pol != truth:
+            return False
+        j = fn.strip(e)
+        return j == call or (fn.nodes[j]["k"] == "DeclRefExpr" and fn.nodes[j]["d"] in ds)
+    return [q for p, q, e, pol in edges_with_fact(fn, pred)]
 
 
 def value_checked(fn, call):
